@@ -37,7 +37,7 @@ _dl("pwsh", ["shell:find_powershell_strings", "shell:get_powershell_command"],
      "QQBCAEMA", "AAAA", "QQ==", "=", "/c"], {"quick": 3, "thorough": 5})
 _dl("xml", ["xml:find_xml_hex"],
     ["&#65;", "&#x41;", "&#X4a;", "&#xzz;", "&#x4g;", "&#256;", "&#0;", "&#00065;", "&#x4;", "&", ";", "&#255;"], {"quick": 5, "thorough": 7})
-_dl("unescape", ["javascript:find_unescape"], ["unescape('", "%41", "%zz", "%", "%u0041", "+", "'", "\\", "')", "%e9", "%0"], {"quick": 4, "thorough": 6})
+_dl("unescape", ["javascript:find_unescape"], ["unescape('", "%41", "%zz", "%", "%u0041", "+", "'", "\\", "')", "%e9", "%0", "%ud800", "%udc00", "%uD83D", "%ude00", "%u"], {"quick": 4, "thorough": 6})
 _dl("utf16", ["codec:find_utf16"], ["a\x00", "\xe9\x00", "\x00\x00", "\x7f\x00", "\x1f\x00", "\xff\x00", "\x00\xd8", "\x09\x00", "a"],
     {"quick": 6, "thorough": 8})
 _dl("b64hex", ["base64:find_atob", "base64:find_base64", "base64:find_Base64Decode", "base64:find_FromBase64String", "hex:find_hex",
@@ -110,7 +110,7 @@ def plan(tier, seed):
     for i in range(len(_pe_field_grid(tier))):
         units.append(("pe", tier, i))
     units.append(("bytes", tier))
-    units += [("ladder", tier, name) for name in families.STREAM_FAMILIES["quick"] if not name.startswith("bytes")] + [("ladder-num", tier)]
+    units += [("ladder", tier, name) for name in families.STREAM_FAMILIES["quick"] if not name.startswith("bytes") and name != "pairs"] + [("ladder-num", tier)]
     units.append(("full", tier))
     units.append(("views",))
     units += core.interp_axis([("views",), ("xor", 0)] + [("sl", "ctx", tier, u[2]) for u in families.get("ctx").units(tier)])
@@ -346,14 +346,23 @@ def run_ladder(rec, tier, name):
     fam = families.get(name)
     hi, max_bytes = (1025, 16384) if tier == "quick" else (70000, 65536)  # several decoders are quadratic in such inputs (out of scope)
     last = b""
+    import time
+
     for tok in fam.tokens:
+        slow = False
         for n in core.ladder(2, hi):
-            if len(tok) * n > max_bytes:
+            if len(tok) * n > max_bytes or slow:
                 break
             for data in (tok * n, fam.tokens[0] + b" " + tok * n + b" " + fam.tokens[-1]):
                 rec.mark("states", (name, data[:40], n), True)
+                t0 = time.process_time()
                 scan_case(rec, md(), data, 10, {"kind": "ladder", "family": name, "token": tok, "n": n, "wrapped": data[:1] != tok[:1] or len(data) != len(tok) * n},
-                          100000 + n, limit=60)
+                          100000 + n, limit=90)
+                if time.process_time() - t0 > 4:
+                    # a decoder whose time grows super-linearly in this repetition (regex backtracking): termination is what C01 claims, the
+                    # cost is out of scope; the ladder stops climbing for this token instead of calling the next, 8x slower, step a hang
+                    slow = True
+                    rec.note(f"ladder stopped early (super-linear scan time, > 4 CPU-s at {len(data)} bytes): family {name}")
                 last = data
     rec.sample({"family": name, "level": "ladder", "token": tok, "lengths": core.ladder(2, hi)[-5:], "last_len": len(last)})
 
